@@ -37,8 +37,9 @@ SIM_PLANS = {
                                        'units': 1}),
     'C13': dict(n=(1600, 16000), strata={'simul': 3, 'contend': 2, 'benign': 3, 'zero': 1,
                                          'units': 1}),
-    'C15': dict(n=(800, 8000), strata={'benign': 3, 'contend': 2, 'zero': 1},
-                delays=('fixed',)),
+    'C15': dict(n=(1400, 14000), strata={'benign': 3, 'contend': 2, 'zero': 1},
+                delays=('fixed',), pairings=('batch', 'queue', 'dynamic', 'greedy', 'greedy'),
+                static_future=0.7),
     'C17': dict(n=(1600, 16000), strata={'contend': 4, 'simul': 3, 'benign': 2},
                 pairings=('dynamic',), delays=('none', 'fixed', 'model')),
     'C18': dict(n=(600, 6000), strata={'tight': 1}),
@@ -93,6 +94,11 @@ def make_sim_case(job):
             return case
         if not gen.feasible(case):
             continue
+        if case.get('static') and plan.get('static_future') and \
+                rng.random() < plan['static_future']:
+            # only a delayed task can turn the schedule DELAYED when the plan's estimate lies
+            # ahead of the clock
+            case['static_est'] = 'future'
         adv_p = plan.get('adversary', 0)
         if adv_p and rng.random() < adv_p:
             profs = plan.get('adv_profiles', ('skip', 'skip', 'reject'))
